@@ -23,6 +23,7 @@ EXPLANATION = (
     "name splits at its last dot (rsplit('.', 1) / backward scan) with the part limit, and the scope map offers bare, qualified and alias keys "
     "(shared with C02/C08); R16.5 the parts of a dotted reference are read from the parse tree, never by splitting its text at '.' (a quoted identifier may hold a dot; only `t.*` is split textually); R16.6 each part of a dotted qualifier is normalised on its own (= R07.3). Does not decide: dialect-specific quoting rules."
     " R16.7 (= R02.2, implicit aliases) and R16.8 (= R08.2) are shared clauses. The summaries of the normal-form analysis (state of a parameter over all call sites, state of a return value) are least fixed points, so verdicts do not depend on the order of evaluation; sqlfluff's raw_normalized() counts as one normalisation."
+    ' R16.2 sites of one function are told apart by the origin of the argument; R16.10 a local set / dictionary of names that is searched holds one spelling state and is searched with keys of that state.'
 )
 RULE_TEXT = "R16.1: per model class; R16.2: per constructor name-argument and per normaliser application (semantic key ctor(param)<-state@function); others per site"
 
